@@ -38,6 +38,7 @@ case "$CMD" in
     /venv/bin/python -m pytest -ra -q -p no:cacheprovider --timeout=900 --continue-on-collection-errors 2>&1 | tail -1
     ;;
   py)
+    cd "$WT" || exit 2
     /venv/bin/python "$@"
     ;;
   *) echo "usage: wt.sh <worktree> build|test|py <file>"; exit 2;;
